@@ -33,6 +33,8 @@ def configs(tier):
     dg = list(itertools.chain(graphs.digraphs(1), graphs.digraphs(2), graphs.digraphs(3)))
     if tier == 'thorough':
         dg += list(graphs.digraphs(4))
+    if tier == 'quick':
+        dg += ['D:4:01,10,12,23,32', 'D:4:01,10,23,32', 'D:4:01,10,12,20,23', 'D:4:01,12,23,30,02']
     for g in dg:
         out.append(dict(family='dirperc', entry='estimate_SIR_prob_size_from_dir_perc', graph=g, tags=['dirperc']))
     ug = list(graphs.G3) + (['P4', 'C4', 'S3', 'paw'] if tier == 'thorough' else [])
